@@ -53,10 +53,55 @@ class Path(object):
 
     def literals(self):
         out = []
-        for e in self.ev:
+        for i, e in enumerate(self.ev):
             if e[0] == "cond":
-                out.extend(A.literals(e[1], e[2]))
+                out.extend(A.literals(self._explained(e[1], i), e[2]))
         return out
+
+    def _explained(self, test, i):
+        """A test that is a local name (or its negation) bound once on the path so far, by a plain assignment of a condition
+        (comparison, and/or/not, isinstance/hasattr/callable/len) whose operands are not rebound before the test, is read as
+        that condition: `deeper = a and b; if deeper:` branches on `a and b` (an explaining variable, not a flag)."""
+        t, neg = test, False
+        while isinstance(t, ast.UnaryOp) and isinstance(t.op, ast.Not):
+            t, neg = t.operand, not neg
+        if not isinstance(t, ast.Name):
+            return test
+        at = None
+        n_bind = 0
+        for k, ev in enumerate(self.ev[:i]):
+            names = []
+            if ev[0] in ("stmt", "partial"):
+                names = [x for tg in A.assigned_targets(ev[1]) for x in A.target_names(tg)]
+            elif ev[0] == "iter":
+                names = A.target_names(ev[1].target)
+            if t.id in names:
+                n_bind += 1
+                at = k if (ev[0] == "stmt" and isinstance(ev[1], ast.Assign) and len(ev[1].targets) == 1
+                           and isinstance(ev[1].targets[0], ast.Name)) else None
+        if n_bind != 1 or at is None:
+            return test
+        v = self.ev[at][1].value
+        if not isinstance(v, (ast.BoolOp, ast.Compare, ast.UnaryOp, ast.Call)):
+            return test
+        for n in ast.walk(v):
+            if isinstance(n, (ast.Name, ast.Constant, ast.BoolOp, ast.Compare, ast.UnaryOp, ast.BinOp, ast.Attribute, ast.Subscript, ast.Tuple,
+                              ast.operator, ast.unaryop, ast.cmpop, ast.boolop, ast.expr_context)):
+                continue
+            if isinstance(n, ast.Call) and isinstance(n.func, ast.Name) and n.func.id in ("isinstance", "hasattr", "callable", "len") \
+                    and not n.keywords:
+                continue
+            return test
+        used = {n.id for n in ast.walk(v) if isinstance(n, ast.Name)} - {"isinstance", "hasattr", "callable", "len"}
+        for ev in self.ev[at + 1:i]:
+            names = []
+            if ev[0] in ("stmt", "partial"):
+                names = [x for tg in A.assigned_targets(ev[1]) for x in A.target_names(tg)]
+            elif ev[0] == "iter":
+                names = A.target_names(ev[1].target)
+            if used & set(names):
+                return test
+        return ast.UnaryOp(op=ast.Not(), operand=v) if neg else v
 
     def literal_srcs(self):
         out = []
@@ -368,6 +413,8 @@ class Enumerator(object):
         return paths
 
     def branch(self, p, test, outcome):
+        # an explaining variable stands for its condition (see Path._explained)
+        test = p._explained(test, len(p.ev))
         if self.prune and not _feasible(p.env, test, outcome):
             return None
         q = p.plus(("cond", test, outcome))
